@@ -2,16 +2,19 @@
    The three if/elif chains of decay_time_series_pandas, plot and to_csv are GENERATED from the source
    (Gen/DispatchGen.v); for EVERY unit string they select the read-out the specification names
    (and raise ValueError otherwise), so the three differently ordered chains agree. *)
-From Coq Require Import ZArith NArith List Bool.
+From Coq Require Import ZArith NArith List Bool String.
 From RD Require Import Base Lib.Py Gen.Tables Gen.DispatchGen Model.Series.
 From RD Require Proofs.SeriesP.
 Import ListNotations.
 Notation s2l_ x := (s2l x%string) (only parsing).
+(* the generated plot chain carries (condition, read-out code, (label, with-unit)); re-associate for [select] *)
+Definition plot_entries : list (dcond * (N * (str * bool))) :=
+  map (fun e => (fst (fst e), (snd (fst e), snd e))) chain_plot.
 
 Theorem series_dispatch_correct : forall u, select chain_series u = spec_select u.
 Proof. exact Proofs.SeriesP.series_dispatch_correct. Qed.
 
-Theorem plot_dispatch_correct : forall u, option_map fst (select chain_plot u) = spec_select u.
+Theorem plot_dispatch_correct : forall u, option_map fst (select plot_entries u) = spec_select u.
 Proof. exact Proofs.SeriesP.plot_dispatch_correct. Qed.
 
 (* to_csv knows the unit kinds and "num" (no fractions) *)
@@ -20,7 +23,7 @@ Theorem csv_dispatch_correct : forall u,
 Proof. exact Proofs.SeriesP.csv_dispatch_correct. Qed.
 
 (* the plot's y-label names the quantity and the requested unit *)
-Theorem plot_labels : forall u c lab withunit, select chain_plot u = Some (c, (lab, withunit)) ->
+Theorem plot_labels : forall u c lab withunit, select plot_entries u = Some (c, (lab, withunit)) ->
   In (c, lab, withunit)
      [ (0%N, s2l_ "Activity (", true); (1%N, s2l_ "Number of moles (", true); (2%N, s2l_ "Mass (", true);
        (3%N, s2l_ "Number of atoms", false); (4%N, s2l_ "Activity fraction", false);
